@@ -96,8 +96,31 @@ def run_k1(ctx):
             ev = ExperimentEvaluator(text)
             return ev(**env)
         out = common.outcome_of(go)
+        out2 = common.outcome_of(go)
         ctx.case(("k1", name, role), True)
-        ok = "g" in out and out["g"] in ({"s": "a"}, {"s": "b"})
+        # the group the published scheme prescribes (the splitter is `name` or uid; no salt; weights 1:1)
+        sp = name if role == "splitter" else "uid"
+        h = gen.published_position(None, [sp], env)
+        want = {"s": "ab"[list(gen.spec_indices(["1", "1"], h)[1])[0]]} if role != "condition" else None
+        if role == "condition":
+            want = {"s": "a"}          # x == 1 is true: single group "a"
+        ok = "g" in out and out == out2 and out["g"] == want
+        if ok and role == "splitter":
+            # more units: a key that silently contains something else than the field's value agrees only by chance
+            from pyab_experiment.experiment_evaluator import ExperimentEvaluator as _E
+            try:
+                ev = _E(text)
+                for k in range(16):
+                    e2 = {name: "unit%d" % k}
+                    hh = gen.published_position(None, [name], e2)
+                    w2 = "ab"[list(gen.spec_indices(["1", "1"], hh)[1])[0]]
+                    if ev(**e2) != w2:
+                        ok = False
+                        out = {"g": {"s": "differs from the published scheme on unit%d" % k}}
+                        break
+            except Exception as ex:  # noqa
+                ok = False
+                out = {"e": common.classify_exc(ex)}
         ctx.count("k1:" + ("ok" if ok else "fails"))
         if not ok:
             ctx.violation(f"identifier {name!r} as {role} name: {out}", {"text": text, "env": common.enc_env(env), "impl": out},
